@@ -187,6 +187,13 @@ def selection(ctx, rng, xr):
     ds["lon"] = (("site",), lon)
     ds["lat"] = (("site",), lat)
     ds.attrs["title"] = "stations"
+    if rng.random() < 0.6:
+        # forcing shared by all stations (no site dimension) with the caller's own attributes, scalar depth
+        ds["wspd"] = (("time",), rng.uniform(1, 20, 2), {"units": "knots", "source": "anemometer 3", "standard_name": "caller_wind"})
+        ds["wdir"] = (("time",), rng.uniform(0, 360, 2), {"units": "deg true", "comment": "caller"})
+        ds["dpt"] = ((), float(rng.uniform(5, 500)), {"units": "fathoms"})
+        ds["efth"].attrs.update({"units": "caller units", "note": "kept"})
+        ds["lon"].attrs.update({"units": "caller deg"})
     method = str(rng.choice(["nearest", "idw", "bbox", "none"]))
     nq = int(rng.integers(1, 4))
     qconv = str(rng.choice(["0-360", "-180-180"]))
@@ -381,6 +388,29 @@ def writers(ctx, rng, xr, ws, d):
         "orcaflex": lambda: ds.isel(time=[0], site=[0]).spec.to_orcaflex(None) if False else None,
     }
     if fmt == "orcaflex":
+        # OrcaFlex export of one spectrum into a (mock) model object: spectra with empty interior bins, held in the usual
+        # (freq, dir) layout, direction-major, with a leading singleton, or as a view of a larger caller buffer
+        from unittest.mock import MagicMock
+        one = ds.isel(time=[0], site=[0])[["efth"]]
+        if "lat" in one.dims:
+            return
+        v = np.array(one["efth"].values, dtype="float64")
+        v = np.where(np.isfinite(v), np.abs(v), 0.0) + 0.05
+        v[..., 1:-1:2, :] = 0.0                                  # empty interior frequency bins
+        lay = str(rng.choice(["freq_dir", "dir_freq", "lead_dir_freq", "view"]))
+        f_, th_ = one.freq.values, one.dir.values
+        if lay == "freq_dir":
+            o = xr.DataArray(np.ascontiguousarray(v[0, 0]), dims=["freq", "dir"], coords={"freq": f_, "dir": th_}, name="efth")
+        elif lay == "dir_freq":
+            o = xr.DataArray(np.ascontiguousarray(v[0, 0].T), dims=["dir", "freq"], coords={"freq": f_, "dir": th_}, name="efth")
+        elif lay == "lead_dir_freq":
+            o = xr.DataArray(np.ascontiguousarray(np.swapaxes(v[0], -1, -2)), dims=["time", "dir", "freq"], coords={"time": one.time.values, "freq": f_, "dir": th_}, name="efth")
+        else:
+            big = np.zeros((len(th_), 2 * len(f_)))
+            big[:, ::2] = v[0, 0].T
+            o = xr.DataArray(big[:, ::2].T, dims=["freq", "dir"], coords={"freq": f_, "dir": th_}, name="efth")
+        target = o.to_dataset() if rng.random() < 0.5 else o
+        pure(rec, "writer:orcaflex", "orcaflex|%s|%s" % (lay, type(target).__name__), lambda: target.spec.to_orcaflex(MagicMock()), {"dataset": target})
         return
     if rng.random() < 0.25:
         # writes that fail (no NetCDF-4 backend here, missing directory, unknown format): the caller's dataset, its
